@@ -972,6 +972,10 @@ func harnessC18world() {
 	}
 	o.allowed = 1
 	o.cmd = vChoice(2) == 1
+	if o.grpc && vChoice(2) == 1 {
+		o.tls = 1 // AutoMTLS: brokered connections (multiplexed or not) carry TLS too
+		vCover("automtls")
+	}
 	if !o.cmd && o.grpc && !o.mux && vChoice(2) == 1 {
 		// a runner whose plugin lives in another file-system namespace (a container): only the socket directory the
 		// runner was given is shared, and addresses are translated by the runner
@@ -1019,6 +1023,9 @@ func harnessC18world() {
 				done <- t
 			}()
 			lbl := "C18: a brokered callback from the plugin reaches the host's server"
+			if vParam("as") == 14 {
+				lbl = "C14: a brokered callback from the plugin works end to end (every combination of multiplexing, transport security and launch method)"
+			}
 			if vParam("as") == 7 {
 				lbl = "C07: a connection the plugin dials for ID n reaches the server the host accepted on ID n (composed; custom runner, possibly another namespace)"
 			}
@@ -1047,6 +1054,9 @@ func harnessC18world() {
 				cc, err := hb.Dial(id)
 				vAssert(err == nil, "C18: the host dials the plugin's brokered server")
 				t, err := wWhoami(cc, ctx)
+				if vParam("as") == 14 && !sameID {
+					vAssert(err == nil && t == tag, "C14: a brokered call from the host works end to end (every combination of multiplexing, transport security and launch method)")
+				}
 				if sameID {
 					// two servers accepting on one ID at the same time: which of them gets a connection dialled for that ID is
 					// not specified (with multiplexing a dial racing with the second Accept is routed to the first listener)
@@ -1125,6 +1135,55 @@ func harnessC18world() {
 	vAssert(len(wFiles) == 0, "C18: no socket file or temporary directory created by go-plugin is left after a graceful shutdown")
 	vAssert(vLiveGoroutines() == 0, "C18: no goroutine started by go-plugin for the client remains in the host a few seconds after Kill")
 	vCover("clean")
+	vDone()
+}
+
+// harnessC18shutdownOrder: gRPC without multiplexing, launched through exec.Cmd; one brokered server established on the
+// plugin; then Kill, under every schedule within the reversal bound: whatever the order in which the plugin's
+// goroutines run during the shutdown, its brokered socket is gone when the process has exited.
+func harnessC18shutdownOrder() {
+	var o wOpts
+	o.grpc = true
+	o.allowed = 1
+	o.cmd = true
+	w := wSetup(o)
+	c, p := w.c, w.p
+	cp, err := c.Client()
+	vAssume(err == nil)
+	raw, err := cp.Dispense("test")
+	vAssume(err == nil)
+	_, err = raw.(wStub).Whoami()
+	vAssume(err == nil)
+	hb := cp.(*GRPCClient).broker
+	pbk := w.plugPl.impls[0].gb
+	go func() {
+		vSetProc(p.id)
+		pbk.AcceptAndServe(12, func(opts []grpc.ServerOption) *grpc.Server {
+			s := grpc.NewServer(opts...)
+			wRegisterUser(s, "test", &wImpl{tag: 200})
+			return s
+		})
+	}()
+	cc, err := hb.Dial(12)
+	vAssume(err == nil)
+	t, err := wWhoami(cc, context.Background())
+	vAssume(err == nil && t == 200)
+	cc.Close()
+	vCover("brokered-server-established")
+	c.Kill()
+	vAssert(p.isDead, "C04: after Kill the plugin process has exited")
+	if p.killed == 0 {
+		vSleepUntil(vNow() + 6*sec)
+		left := ""
+		for f := range wFiles {
+			left += " " + f
+		}
+		if left != "" {
+			vRecord("files-left", left)
+		}
+		vAssert(len(wFiles) == 0, "C18: no socket file is left after a graceful shutdown, whatever the order in which the plugin's goroutines run while it shuts down")
+		vCover("graceful")
+	}
 	vDone()
 }
 
@@ -1456,6 +1515,14 @@ func harnessC11world() {
 	vAssert(out.chunks[0] == o1 && out.chunks[1] == o2, "C11: the host's SyncStdout receives exactly what the plugin wrote to its stdout, in order")
 	vAssert(len(errw.chunks) == 1 && errw.chunks[0] == e1, "C11: the host's SyncStderr receives exactly what the plugin wrote to its stderr")
 	vCover("delivered")
+	// a long-lived client: output written well after the host attached is still delivered
+	o3 := vNondetStr("o3", "")
+	vAssume(len(o3) >= 1 && len(o3) <= 1024)
+	vSleepUntil(vNow() + 30*sec)
+	write(false, o3)
+	vSleepUntil(vNow() + 2*sec)
+	vAssert(len(out.chunks) == 3 && out.chunks[2] == o3, "C11: output written long after the host attached is still delivered (the connection is alive)")
+	vCover("late-output")
 	w.c.Kill()
 	vDone()
 }
@@ -1679,9 +1746,22 @@ func harnessC20serveShutdown() {
 	c.Kill()
 	vAssert(p.isDead, "C04: after Kill the plugin process has exited")
 	if side == 0 {
-		vCover("host-side")
 		<-served // the server started during the shutdown ends with the broker
-		hb.AcceptAndServe(32, mk)
+	}
+	if p.killed == 0 { // a graceful exit: in every schedule nothing go-plugin created is left behind
+		left := ""
+		for f := range wFiles {
+			left += " " + f
+		}
+		if left != "" {
+			vRecord("files-left", left)
+		}
+		vAssert(len(wFiles) == 0, "C18: no socket file or temporary directory is left after a graceful shutdown, in any schedule of the shutdown against a brokered server being started")
+		vCover("graceful")
+	}
+	if side == 0 {
+		vCover("host-side")
+		hb.AcceptAndServe(32, mk) // and one started after the shutdown returns too (no panic)
 		vCover("after-shutdown")
 	} else {
 		vCover("plugin-side")
